@@ -513,6 +513,16 @@ static CaseResult runLockCase(const CaseSpec& spec) {
     std::string after = dumpDB(dbPath, 1);
     if (after != refDump) res.violations.push_back({"lock: database content after a contested build differs from an uncontested run", "ref=" + refDump.substr(0, 300) + " got=" + after.substr(0, 300)});
   }
+  // the refused engine tries again now that the other build has released the database: it must get its build
+  // (only an engine that had not seen the database before the contest: one that attached earlier holds state from before the other
+  // engine's build, and interleaving two live engines is outside the property)
+  if (contested && !attachFirst && fb && bAttachOk && !cb.errors.empty() && res.violations.empty()) {
+    std::string firstErr = cb.errors[0];
+    cb.errors.clear(); if (fb->supportsReset()) fb->reset();
+    gHookCtx = &cb; cb.monitorsOn = false; cb.beginBuild(target); std::string v2 = fb->build(prog.keys[target].name); cb.endBuild(v2); gHookCtx = nullptr;
+    if (v2.empty()) res.violations.push_back({"lock: a build retried after the other build had released the database failed", "first refusal: " + firstErr.substr(0, 100) + " retry: " + (cb.errors.empty() ? "" : cb.errors[0].substr(0, 100))});
+    else if (cb.oracleValid && !cb.oracleCycle[target] && v2 != cb.oracle[target]) res.violations.push_back({"lock: a build retried after the other build had released the database returned a wrong value", ""});
+  }
   res.builds = 3; res.nontrivial = contested; res.shapeHash = vf::fnv(res.programDesc) + attachFirst;
   res.historyDesc = std::string("contested=") + (contested ? "1" : "0") + " attachFirst=" + (attachFirst ? "1" : "0") + " B.attach=" + (bAttachOk ? "ok" : "err:" + bErr.substr(0, 80)) + " B.errors=" + (cb.errors.empty() ? "" : cb.errors[0].substr(0, 120));
   fb.reset();
